@@ -151,16 +151,8 @@ def signature (p : Params) (fuel : Nat) (msg sk : List Nat) (randomized : Bool) 
   let r ← sign_loop p mat mu rhoprime s1h s2h t0h fuel 0
   .ok (r, tape)
 
-/-- the part of `verify` that does not depend on the message: decoding, the norm gate, tr = H(pk) and the
-    reconstruction of w1 from (sig, pk).  `none` = rejected before the hash comparison.
-    Returns (tr-hash of pk, c̃ from the signature, w1Encode(w1')). -/
-def verify_core (p : Params) (sig pk : List Nat) : Chk (Option (List Nat × List Nat × List Nat)) := do
-  if sig.length ≠ p.sigBytes then .ok none else
-  let (rho, t1) ← unpack_pk p pk
-  let (ok, c, z, h) ← unpack_sig p sig
-  if ¬ ok then .ok none else
-  let r ← vec_chknorm z ((p.gamma1 : Int) - p.beta)
-  if 0 < r then .ok none else
+/-- reconstruction of w1 from the decoded signature and public key: returns (H(pk), w1Encode(w1')) -/
+def verify_tail (p : Params) (pk rho : List Nat) (t1 : PolyVec) (c : List Nat) (z h : PolyVec) : Chk (List Nat × List Nat) := do
   let trh ← shake256 CRHBYTES p.trBytes pk p.pkBytes
   let cp ← poly_challenge p FUEL c
   let mat ← matrix_expand p FUEL rho
@@ -175,7 +167,21 @@ def verify_core (p : Params) (sig pk : List Nat) : Chk (Option (List Nat × List
   let w1 ← vec_invntt_tomont w1
   let w1 ← vec_caddq w1
   let w1 ← k_use_hint p.lvl w1 h
-  .ok (some (trh, c, k_pack_w1 p.lvl w1))
+  .ok (trh, k_pack_w1 p.lvl w1)
+
+/-- the part of `verify` that does not depend on the message: length gate, decoding, the norm gate, then
+    `verify_tail`.  `none` = rejected before the hash comparison.
+    Returns (tr-hash of pk, c̃ from the signature, w1Encode(w1')). -/
+def verify_core (p : Params) (sig pk : List Nat) : Chk (Option (List Nat × List Nat × List Nat)) :=
+  if sig.length = p.sigBytes then
+    unpack_pk p pk >>= fun rt =>
+    unpack_sig p sig >>= fun u =>
+    if u.1 = true then
+      vec_chknorm u.2.2.1 ((p.gamma1 : Int) - p.beta) >>= fun r =>
+      if 0 < r then .ok none else
+      verify_tail p pk rt.1 rt.2 u.2.1 u.2.2.1 u.2.2.2 >>= fun tb => .ok (some (tb.1, u.2.1, tb.2))
+    else .ok none
+  else .ok none
 
 /-- `sign::<set>::verify(sig, m, pk) -> bool`.
     (The Rust code computes μ = H(tr ‖ m) between the norm gate and the challenge expansion; μ does not feed
